@@ -201,7 +201,19 @@ pub(crate) mod verif_c01 {
         Map,
         Enum,
         Unit,
+        /// a string event: index into STRS (visit_str)
+        Str(usize),
+        /// the same literal as a borrowed / owned string event
+        BorrowedStr(usize),
+        OwnedStr(usize),
+        /// numeric events regardless of the requested method
+        F64Now,
+        F32Now(u32),
+        I64Now(i64),
+        U64Now(u64),
+        BoolNow,
     }
+    pub static STRS: [&str; 10] = ["NaN", "Infinity", "-Infinity", "true", "false", "1.5", "QUJD", "ab", "", "-0.25"];
     pub static mut REPLIES: [Reply; 4] = [Reply::Natural; 4];
     pub static mut BOOLVAL: bool = false;
     pub static mut F64VAL: f64 = 0.0;
@@ -228,6 +240,14 @@ pub(crate) mod verif_c01 {
                 Reply::Map => v.visit_map(Acc(self.0 + 1)),
                 Reply::Enum => v.visit_enum(Acc(self.0 + 1)),
                 Reply::Unit => v.visit_unit(),
+                Reply::Str(i) => v.visit_str(STRS[i]),
+                Reply::BorrowedStr(i) => v.visit_borrowed_str(STRS[i]),
+                Reply::OwnedStr(i) => v.visit_string(String::from(STRS[i])),
+                Reply::F64Now => v.visit_f64(unsafe { F64VAL }),
+                Reply::F32Now(b) => v.visit_f32(f32::from_bits(b)),
+                Reply::I64Now(x) => v.visit_i64(x),
+                Reply::U64Now(x) => v.visit_u64(x),
+                Reply::BoolNow => v.visit_bool(unsafe { BOOLVAL }),
             }
         }
     }
@@ -438,7 +458,7 @@ pub(crate) mod verif_c01 {
         }
     }
 
-    fn script(r0: Reply, r1: Reply) {
+    pub fn script(r0: Reply, r1: Reply) {
         reset();
         unsafe {
             REPLIES = [r0, r1, Reply::Natural, Reply::Natural];
@@ -446,17 +466,17 @@ pub(crate) mod verif_c01 {
             F64VAL = kani::any();
         }
     }
-    fn fv() -> Ev {
+    pub fn fv() -> Ev {
         Ev::VF64(unsafe { F64VAL }.to_bits())
     }
-    fn bv() -> Ev {
+    pub fn bv() -> Ev {
         Ev::VBool(unsafe { BOOLVAL })
     }
     /// trace of "the value-position probe went through the value behaviour": hook, inner method, scalar
-    fn value_probe_at(i: usize) -> bool {
+    pub fn value_probe_at(i: usize) -> bool {
         at(i) == Ev::Hook(F64) && at(i + 1) == Ev::M(F64, 0, 0) && at(i + 2) == fv()
     }
-    fn key_probe_at(i: usize) -> bool {
+    pub fn key_probe_at(i: usize) -> bool {
         at(i) == Ev::KeyHook(BOOL) && at(i + 1) == Ev::M(BOOL, 0, 0) && at(i + 2) == bv()
     }
 
